@@ -2167,8 +2167,9 @@ class Interp:
                 if base.kind == "set" and args[0] in base.items:
                     return [(cfg, NONE)]
                 return rebind(ListV(base.items + (args[0],), base.kind))
+            # (distinct known objects - ObjV / ClassV / NodeV - are as decidable as constants: equality is identity of the abstract object)
             if meth in ("discard", "remove") and len(args) == 1 and (_concrete(args[0]) or args[0] in base.items) \
-                    and all(_concrete(x) or x == args[0] for x in base.items):
+                    and all(_concrete(x) or x == args[0] or (isinstance(x, (ObjV, ClassV, NodeV)) and isinstance(args[0], (ObjV, ClassV, NodeV))) for x in base.items):
                 if args[0] in base.items:
                     items = list(base.items)
                     items.remove(args[0])
